@@ -672,6 +672,9 @@ func (node *CallGraphStage) resolve(siblings map[string]*ResolvedBinding,
 				Type: lookup.Get(tid),
 			}
 		}
+	} else if node.isAlwaysDisabled() {
+		// There are no outputs to bind, but the stage still never runs.
+		node.Disable = alwaysDisable(node.Disable)
 	}
 	return errs.If()
 }
